@@ -9,14 +9,17 @@ from vf.props.c02 import site_of
 
 PROPERTY = 'C01'
 RULE = ('cases = (dialect, text) accepted by parse_sql: corpus statements, random grammar derivations (stratified over '
-        'statement kinds), accepted token mutations, all production-pair sentences of the live grammars (bounded-exhaustive), option-list statements (USING / SET / PARAMETERS) with string values over the characters that need escaping, bounded-exhaustive shaped statements (vf/gens/c01_shapes.py: every keyword as a back-quoted function name / namespace, SHOW word pairs in three spellings, halves of two-word keywords as adjacent names, every ordered subset of the CREATE MODEL clauses, one-part names with dots / back-quotes wherever a string becomes a name, quoted string values in every statement that prints a string, long number literals, lower-case short pair sentences); judged: print does not raise, printed text is accepted, re-parsed '
+        'statement kinds), accepted token mutations, all production-pair sentences of the live grammars (bounded-exhaustive), option-list statements (USING / SET / PARAMETERS) with string values over the characters that need escaping, bounded-exhaustive shaped statements (vf/gens/c01_shapes.py: every keyword as a back-quoted function name / namespace, SHOW word pairs in three spellings, halves of two-word keywords as adjacent names, every ordered subset of the CREATE MODEL clauses, one-part names with dots / back-quotes wherever a string becomes a name, quoted string values in every statement that prints a string, long number literals, lower-case short pair sentences, CREATE TABLE column lists: the five column rules x NULL / NOT NULL x every key list over one to three columns, queries with a WITH in front / USING behind of their own -- parenthesised UNION / INTERSECT / EXCEPT and plain selects -- in 39 nesting contexts x 6 operation words); judged: print does not raise, printed text is accepted, re-parsed '
         'tree structurally identical (reflection over every field) and to_tree-identical, printing idempotent, same '
         'for copy(); non-trivial = accepted and (>= 4 AST nodes or a quoted identifier / string literal / user '
         'parentheses / MindsDB command); distinct by whitespace-normalised text per dialect')
 ASSUMPTIONS = ['"identical tree" is read as structural identity of all node fields (O-struct); to_tree() equality is '
                'checked additionally', 'first parse is only a filter: no text is required to be accepted']
-FLOORS = {'quick': {'accepted': 4000, '__nontrivial__': 2500, 'stmt:Select': 800},
-          'thorough': {'accepted': 40000, '__nontrivial__': 25000, 'stmt:Select': 8000}}
+_SHAPE_FLOORS = {'ct:key1+length': 120, 'ct:key1+default': 130, 'ct:key1+nullable': 100, 'ct:keyN': 400,
+                 'setop-own:nested+using': 90, 'setop-own:nested+with': 280, 'setop-own:nested+with+using': 90,
+                 'setop-own:operand': 110, 'setop-own:top': 45}
+FLOORS = {'quick': dict({'accepted': 4000, '__nontrivial__': 2500, 'stmt:Select': 800}, **_SHAPE_FLOORS),
+          'thorough': dict({'accepted': 40000, '__nontrivial__': 25000, 'stmt:Select': 8000}, **_SHAPE_FLOORS)}
 N = {'quick': 600, 'thorough': 7000}
 
 _LEX = {}
@@ -128,9 +131,26 @@ def tree_tags(T, d):
         lt = lexes_as(text)
         return lt is not None and len(lt) == 1 and lt[0] != 'ID'
 
+    def backslash_unsafe(v):
+        # the mindsdb lexer pairs a back-slash with a following quote / double quote / back-slash; one at the end
+        #  pairs with the closing quote whenever another quote follows in the statement
+        return isinstance(v, str) and re.search(r'\\([\\\'"]|$)', v) is not None
+
     for n in walk(T):
         cn = type(n).__name__
         mod = type(n).__module__
+        # texts that are printed through Constant.get_string / by Interval.get_string (quote escaped, back-slash not)
+        if d == 'mindsdb':
+            if cn == 'Constant' and backslash_unsafe(n.value) and getattr(n, 'with_quotes', True):
+                out.add('string:backslash-unsafe')
+            elif cn == 'Show' and backslash_unsafe(n.like):
+                out.add('string:backslash-unsafe')
+            elif cn == 'CreateJob' and any(backslash_unsafe(x) for x in (n.start_str, n.end_str, n.repeat_str)):
+                out.add('string:backslash-unsafe')
+            elif cn == 'CreateDatabase' and backslash_unsafe(n.engine):
+                out.add('string:backslash-unsafe')
+            elif cn == 'Interval' and any(backslash_unsafe(x) for x in n.args):
+                out.add('interval:backslash-unsafe')
         # attributes that hold plain texts / option lists (they have printers of their own)
         for attr, v in sorted(vars(n).items()):
             if isinstance(v, str) and "'" in v and d != 'mindsdb' and (cn == 'Constant' or attr == 'like'):
@@ -248,6 +268,39 @@ def tree_tags(T, d):
     return sorted(out)
 
 
+def tree_classes(T, ncls):
+    """Coverage classes (for the floors) of the two shape families that need a particular tree, computed from the parsed
+    tree: which column details stand next to a one-column key; where a set operation with clauses of its own sits."""
+    from vf.oracles.struct import walk
+    out = []
+    if type(T).__name__ == 'CreateTable' and T.columns is not None:
+        keys = [c for c in T.columns if c.is_primary_key]
+        if len(keys) == 1:
+            c = keys[0]
+            out.append('ct:key1')
+            if c.length is not None: out.append('ct:key1+length')
+            if c.default is not None: out.append('ct:key1+default')
+            if c.nullable is not None: out.append('ct:key1+nullable')
+            if c.length is None and c.default is None: out.append('ct:key1-bare')
+        elif keys:
+            out.append('ct:keyN')
+        else:
+            out.append('ct:nokey')
+    if ncls & set(SETOPS):
+        nodes = list(walk(T))
+        operands = set()
+        for n in nodes:
+            if type(n).__name__ in SETOPS:
+                operands.update((id(n.left), id(n.right)))
+        for n in nodes:
+            if type(n).__name__ in SETOPS and (n.cte is not None or n.using is not None):
+                own = ('+with' if n.cte is not None else '') + ('+using' if n.using is not None else '')
+                where = 'top' if n is T else 'operand' if id(n) in operands else 'nested'
+                out.append(f'setop-own:{where}')
+                out.append(f'setop-own:{where}{own}')
+    return sorted(set(out))
+
+
 def tags(sql):
     t = []
     if '\\' in sql: t.append('text:backslash')
@@ -348,10 +401,12 @@ def judge(case, col):
             rec('copy-print-diff', stmt, '')
     except Exception as e:
         rec('copy-crash', site_of(e), f'{type(e).__name__}: {e}')
+    shape_classes = tree_classes(T, ncls)
     nontrivial = len(ncls) >= 1 and (len(st0.__repr__()) > 300 or any(c in sql for c in '`"\'(') or stmt not in
                                      ('Select',))
     key = (d, ' '.join(sql.split()))
-    col.case(key, nontrivial, ['accepted', 'stmt:' + stmt, 'dialect:' + d, 'origin:' + case.get('origin', '?').split(':')[0]],
+    col.case(key, nontrivial, ['accepted', 'stmt:' + stmt, 'dialect:' + d, 'origin:' + case.get('origin', '?').split(':')[0]]
+             + shape_classes,
              {'dialect': d, 'sql': sql, 'printed': s1})
     return out
 
@@ -426,7 +481,9 @@ def run_shard(col, k, nshards, tier, seed):
                                     'SHOW word pairs in three spellings, halves of the two-word keywords as adjacent names, every '
                                     'ordered subset of the CREATE MODEL clauses, one-part names with dots / back-quotes in every '
                                     'place that turns a string into a name, string values with quotes in every statement that '
-                                    'prints a string, long number literals, lower-case spelling of the short pair sentences')
+                                    'prints a string, long number literals, lower-case spelling of the short pair sentences, CREATE TABLE '
+                                    'column lists (five column rules x NULL / NOT NULL x key lists over one to three columns), set '
+                                    'operations / selects with their own WITH / USING in every nesting context')
         col.exhaustive_parts.append(f'all {n} production-pair sentences of the three grammars (every production with every '
                                     'alternative of each of its nonterminals, minimal elsewhere)')
     hyp.explore(col, cases(), judge, N[tier], seed)
